@@ -44,7 +44,10 @@ Next == AddNode \/ Start \/ (MNext /\ UNCHANGED tag)
 Spec == Init /\ [][Next]_vars
 \* the typing handed to the machine is a typing (rules hold)
 TypedInv == phase # "build" => WellTyped(dag, ty, FALSE) /\ \A i \in 1..Len(dag) : dag[i][1] \in {"witness", "word0", "word1"} => HasType(aux[i], ty[i][2])
-H == (Len(visited) + hwc * 3 + Len(dag) * 7 + W(ty[Root][1])) % EmitMod
+\* (child indices weighted by position: sizes alone stay below a large modulus and never reach 0)
+RECURSIVE ShapeSum(_, _)
+ShapeSum(d, k) == IF k = 0 THEN 0 ELSE ShapeSum(d, k - 1) + k * (3 * d[k][2] + 5 * d[k][3])
+H == (Len(visited) + hwc * 3 + Len(dag) * 7 + W(ty[Root][1]) + ShapeSum(dag, Len(dag))) % EmitMod
 Emit == (MDone /\ fill = 0 /\ H = 0) =>
   PrintT(<<"CASE", ToJson([dag |-> dag, ty |-> ty, aux |-> aux, inp |-> inp,
                            ok |-> Expected.ok, out |-> Expected.v, why |-> Expected.why,
